@@ -21,6 +21,15 @@ CHECKS = {
         "generated sequences of calls through sync and async Retry .call/.execute.",
         RUNNER_NOTE, "DESIGN.md §4 C01",
     ),
+    "C02": (
+        "Coq proof (loop-top invariant `top` by induction over the retry loop: every later attempt starts within the deadline; per-iteration sleep bound from the verdict; total-sleep potential argument) tied by in-Coq trace correspondence (projection: times of invocations and sleeps, requested delays) under a virtual monotonic clock with a jumping wall clock",
+        "Theorems C02_attempt_start, C02_sleep_within_remaining, C02_total_sleep, C02_no_retry_at_deadline, "
+        "C02_measured_from_call_start hold for all configurations, environments (durations, overshoots, strategy returns incl. "
+        "NaN/inf/negative), start times and budget states of the Gallina model of the retry loop, on the code's own "
+        "1-microsecond-quantised monotonic clock; sub-microsecond rounding is not modelled. The model is compared inside Coq "
+        "with /repo on generated call sequences with deadlines that bind at every check site.",
+        RUNNER_NOTE, "DESIGN.md §4 C02",
+    ),
     "C03": (
         "Coq proof (iff characterisation of one loop iteration by a pure verdict function; budget/sleep iff; stop-reason soundness) tied by in-Coq trace correspondence (projection: invocations, budget, retry/terminal events, handler, sleeps, polls)",
         "Theorems C03_* (continue iff permitted; budget asked iff static conditions; sleep iff; no backoff after the last "
